@@ -53,7 +53,7 @@ def build(kind='plain'):
     for p in (c, h):
         if os.path.exists(p):
             m.update(open(p, 'rb').read())
-    m.update(' '.join(flags).encode())
+    m.update(' '.join(cc).encode())          # compiler + options only: the include path of a scratch worktree must not change the key
     key = m.hexdigest()[:24]
     os.makedirs(CACHE, exist_ok=True)
     so = os.path.join(CACHE, '%s-%s%s' % (kind, key, suffix))
@@ -67,9 +67,11 @@ def build(kind='plain'):
                 pass
             return None, 'compile failed: ' + r.stderr[-800:]
         os.replace(tmp, so)
-        # keep the cache small: drop other builds of the same kind
-        for f in os.listdir(CACHE):
-            if f.startswith(kind + '-') and f != os.path.basename(so) and '.tmp' not in f:
+        # keep the cache small: only the six newest builds of a kind stay (a concurrent run on a scratch worktree may be using another one)
+        mine = sorted((f for f in os.listdir(CACHE) if f.startswith(kind + '-') and '.tmp' not in f),
+                      key=lambda f: os.path.getmtime(os.path.join(CACHE, f)), reverse=True)
+        for f in mine[6:]:
+            if f != os.path.basename(so):
                 try:
                     os.unlink(os.path.join(CACHE, f))
                 except OSError:
